@@ -685,6 +685,22 @@ def _gen_base(rng, tier, shard, nshards):
                     b = 'BA_ "%s" %s %s;' % (g.group(1), g.group(2), rng.choice(("abc", "abc") + FLOAT_WORDS))
                     if not any(b2 == b for _, b2, _ in bads):
                         bads.append([rng.choice(later), b, "wrongvalue"])
+            if fmt == "dbc" and m and ms and rng.random() < 0.25:
+                # a cycle time or start value that float() converts but that is no number, for an attribute the file does not define (no
+                # definition checks the value; the post-processing has to ignore it - it used to raise OverflowError / store NaN)
+                cands = []
+                if not any(re.match(r'BA_DEF_ +BO_ +"GenMsgCycleTime"', l) for l in lines):
+                    cands.append('BA_ "GenMsgCycleTime" BO_ {fid} %s;')
+                if not any(re.match(r'BA_DEF_ +SG_ +"GenSigStartValue"', l) for l in lines):
+                    cands.append('BA_ "GenSigStartValue" SG_ {fid} {sig} %s;')
+                if not any(re.match(r'BA_DEF_ +SG_ +"GenSigCycleTime"', l) for l in lines):
+                    cands.append('BA_ "GenSigCycleTime" SG_ {fid} {sig} %s;')
+                last_sg = max([n for n, l in enumerate(lines) if l.startswith((" SG_ ", "BO_ "))] or [0])
+                later = [q for q in pos if q > last_sg]
+                if cands and later:
+                    b = (rng.choice(cands) % rng.choice(FLOAT_WORDS)).replace("{fid}", m.group(1)).replace("{sig}", ms.group(1))
+                    if not any(b2 == b for _, b2, _ in bads):
+                        bads.append([rng.choice(later), b, "matchok"])
             if fmt == "dbc" and m and ms and rng.random() < 0.3:
                 # a malformed line that names an existing frame and signal but stands before the frame's definition
                 first_bo = [n for n, l in enumerate(lines) if l.startswith("BO_ ")]
